@@ -7,10 +7,18 @@ import e2e_common as E
 def run(ctx):
     traces = ctx.e2e(E.plan(ctx, [("violation", 45), ("tiny", 5), ("reset", 4), ("clean", 2)]))
     ctx.validate_families(traces, "Trace_RecvRules", E.RECV_KINDS)
-    n = sum(1 for f, (tf, _) in traces.items() for line in open(tf) if '"ev":"violation_injected"' in line)
+    import re
+    kinds = {}
+    for f, (tf, _) in traces.items():
+        for line in open(tf):
+            if '"ev":"violation_injected"' in line:
+                k = re.search(r'"kind":"(\w+)"', line)
+                kinds[k.group(1) if k else "?"] = kinds.get(k.group(1) if k else "?", 0) + 1
+    n = sum(kinds.values())
     ctx.cov["violations_injected"] = n
+    ctx.cov["violations_injected_by_kind"] = kinds
     if n == 0:
         import vlib
         raise vlib.ToolError("vacuous: no violating frame was injected")
-    ctx.assume("violating frames are appended to genuine packets at the victim's rx interceptor (the honest peer is untouched); 15 violation kinds x both roles x injection points; the verdict is computed by the specification from the victim's own observable history, not by the harness")
+    ctx.assume("violating frames are appended to genuine packets at the victim's rx interceptor (the honest peer is untouched); 17 violation kinds x both roles x injection points; the verdict is computed by the specification from the victim's own observable history, not by the harness")
     ctx.assume("credit bound: every MAX_STREAM_DATA / MAX_DATA / MAX_STREAMS value sent is <= bytes the application obtained (plus received bytes of reset/finished streams) + configured window / limit")
